@@ -306,5 +306,29 @@ def r12_5(ctx):
     ctx.findings[:] = [f for f in ctx.findings if not (f.rule == ctx._rule and f.construct in dropped)]
 
 
+def r12_6(ctx):
+    """R12.6 the alias list used for touching is complete: the rename tables are updated together and a duplicate mapping
+    removes only the re-mapped alias from the reverse table (C07 R07.5) - sync_deps finds the aliases to touch through
+    get_deprecated_option(), i.e. through that reverse table; _old_val of every symbol is reset before each sync."""
+    from . import c07
+    c07.r07_5(ctx)
+    repo = ctx.repo
+    lo = repo.func(f"{CORE}:Kconfig._load_old_vals")
+    fl = Flow(lo.node).run()
+    resets = [n for n in ast.walk(lo.node) if isinstance(n, ast.Assign) and ast.unparse(n.targets[0]).endswith("._old_val") and ast.unparse(n.value) == "None"]
+    construct = "Kconfig._load_old_vals/_old_val reset unconditionally for every symbol at each sync"
+    ok = bool(resets) and not (fl.guards_at(resets[0]) or set()) and not any(isinstance(p, ast.ExceptHandler) for p in _anc(repo, resets[0]))
+    (ctx.ok(construct, lo.loc(resets[0]) if resets else lo.loc()) if ok else
+     ctx.bad(construct, "the old value survives from an earlier sync of the same Kconfig object when auto.conf has no line for the symbol: a later change back to that "
+             "value is not flagged", lo.loc(resets[0]) if resets else lo.loc()))
+
+
+def _anc(repo, n):
+    p = repo.parent(n)
+    while p is not None:
+        yield p
+        p = repo.parent(p)
+
+
 def rules():
-    return [("R12.1", r12_1, 6), ("R12.2", r12_2, 2), ("R12.3", r12_3, 1), ("R12.4", r12_4, 6), ("R12.5", r12_5, 4)]
+    return [("R12.1", r12_1, 6), ("R12.2", r12_2, 2), ("R12.3", r12_3, 1), ("R12.4", r12_4, 6), ("R12.5", r12_5, 4), ("R12.6", r12_6, 4)]
